@@ -31,6 +31,9 @@ def specs(ctx):
     digs = list(itertools.product((0, 1, 2, 3), repeat=2)) if thorough else [(1, 3), (0, 0), (2, 2), (3, 1)]
     out = []
     big = BIG if thorough else [0, 1, 128, (1 << 31), (1 << 32), (1 << 63) - 1, 1 << 63, (1 << 64) - 1]
+    if ctx.deep:
+        # every length boundary of the integer encoding (7 bits per byte) and the 32/63/64-bit limits, each -1/+0
+        big = sorted(set(BIG) | {(1 << (7 * k)) - d for k in range(1, 10) for d in (0, 1)} | {(1 << 31) + 1, (1 << 32) - 1, (1 << 62), (1 << 63) + 1, (1 << 64) - 2})
     entry_sets = [()]
     for a in itertools.product(big, repeat=2):
         entry_sets.append((a,))
